@@ -48,7 +48,7 @@ def _flip_result(evs):
 CORRUPTORS = [("observation-loses-an-object", _drop_object), ("create-result-flipped", _flip_result)]
 
 
-def run_logical(ctx, level, models, extra_cases=None, nontrivial=None, rule="", sim=None, sample_filter=None, extra_cov=None):
+def run_logical(ctx, level, models, extra_cases=None, nontrivial=None, rule="", sim=None, sample_filter=None, extra_cov=None, stored_bytes_of=None):
     """models: list of (module, cfg) generator configurations (each also model-checks its invariants).
     extra_cases: list of additional case dicts (seeded random drivers).
     sim: optional (module, cfg, num, depth) for tlc -simulate behaviours beyond the bound."""
@@ -81,6 +81,20 @@ def run_logical(ctx, level, models, extra_cases=None, nontrivial=None, rule="", 
     bad = verdict["bad"]
     nviol, known = H.report(ctx, bad, lambda i: cases[i], trace)
     selftest = H.binding_selftest(ctx, "H5LogicalTrace.tla", "H5Logical_trace.cfg", trace, CORRUPTORS)
+    nraw = 0
+    if stored_bytes_of:
+        # element kinds for which the library offers no typed read (arrays, enumerations, opaque, compound): a second pass
+        # in which the file is observed through the independent decoder, so that the STORED BYTES are compared (RawItem)
+        sub = [c for c in cases if stored_bytes_of(c)]
+        if sub:
+            path2 = ctx.write_cases(sub, "cases_stored.ndjson")
+            trace2, dout2 = ctx.drive("ops", path2, trace_name="trace_stored.ndjson", env={"H5V_VIEW": "indep"})
+            verdict2, _ = ctx.validate("H5LogicalTrace.tla", "H5Logical_trace.cfg", trace2)
+            nv2, known2 = H.report(ctx, verdict2["bad"], lambda i: sub[i], trace2)
+            nviol += nv2
+            known = sorted(set(known) | set(known2))
+            bad = bad + verdict2["bad"]
+            nraw = len(sub)
     nt = nontrivial or (lambda c: len(c["ops"]) >= 2)
     distinct = len({H.nontrivial_hash(c) for c in cases if nt(c)})
     samples = [cases[0], cases[min(len(cases) - 1, ngen // 2)]]
@@ -106,6 +120,7 @@ def run_logical(ctx, level, models, extra_cases=None, nontrivial=None, rule="", 
         "known_findings_matched": known,
         "exhaustive": False,
         "binding_selftest": selftest,
+        "cases_observed_through_independent_decoder": nraw,
     }
     if extra_cov:
         cov.update(extra_cov)
